@@ -1,35 +1,105 @@
+import Mathlib.Tactic.Ring
+import Mathlib.Data.Real.Basic
 import DuneVerif.Model.C08T
 /-!
 # C08 — the table-driven definitions of `Model/C08T.lean` coincide with the hand-written control flow of `Model/C08.lean`
 
-Core Lean, generic scalar type: the statements hold for the Float, Rat and ℝ instances alike.  They are re-checked
-against the tables the translator extracts from the current source on every run; a change of an index, of the update of
-the running maximum, of the swap network or of a LAPACK job/size breaks them.
+Over ℝ (the instance of the property theorems).  The translated *expressions* (rows of `A - λI`, the 2-vectors and `u`
+of `orthoComp`, the reduced matrix and the four normalisation sequences of `eig1`) are identified with the hand-written
+ones up to ring identities (`leaf_eq`: `rfl`, else `ring_nf`, also inside `sqrt`), so commuted factors or re-associated
+sums in the source do not matter; the translated *index tables* are evaluated (`rfl`).  Re-checked against what the
+translator extracts from the current source on every run: a change of an index, of the update of the running maximum,
+of a coefficient, of the swap network or of a LAPACK job/size breaks them.
 -/
 namespace DV.C08
 
+/-- closes `translated leaf = hand-written leaf` up to ring identities (also inside the arguments of `sqrt`) -/
+macro "leaf_eq" : tactic =>
+  `(tactic| first | rfl | (simp only [Nat.cast_zero, Nat.cast_one, Nat.cast_ofNat, Prod.mk.injEq] <;> (try constructor) <;> ring_nf) | ring_nf)
+
+section leaves
+variable (sqrt : ℝ → ℝ)
+
+theorem eig0_row0_eq (m00 m01 m02 m10 m11 m12 m20 m21 m22 ev : ℝ) :
+    Gen.eig0_row0 m00 m01 m02 m10 m11 m12 m20 m21 m22 ev = (m00 - ev, m01, m02) := by
+  unfold Gen.eig0_row0; leaf_eq
+
+theorem eig0_row1_eq (m00 m01 m02 m10 m11 m12 m20 m21 m22 ev : ℝ) :
+    Gen.eig0_row1 m00 m01 m02 m10 m11 m12 m20 m21 m22 ev = (m10, m11 - ev, m12) := by
+  unfold Gen.eig0_row1; leaf_eq
+
+theorem eig0_row2_eq (m00 m01 m02 m10 m11 m12 m20 m21 m22 ev : ℝ) :
+    Gen.eig0_row2 m00 m01 m02 m10 m11 m12 m20 m21 m22 ev = (m20, m21, m22 - ev) := by
+  unfold Gen.eig0_row2; leaf_eq
+
+theorem orthoComp_tempA_eq (e0 e1 e2 : ℝ) : Gen.orthoComp_tempA e0 e1 e2 = (e0, e2) := by
+  unfold Gen.orthoComp_tempA; leaf_eq
+
+theorem orthoComp_uA_eq (e0 e1 e2 : ℝ) : Gen.orthoComp_uA e0 e1 e2 = (-e2, (zero : ℝ), e0) := by
+  unfold Gen.orthoComp_uA zero; leaf_eq
+
+theorem orthoComp_tempB_eq (e0 e1 e2 : ℝ) : Gen.orthoComp_tempB e0 e1 e2 = (e1, e2) := by
+  unfold Gen.orthoComp_tempB; leaf_eq
+
+theorem orthoComp_uB_eq (e0 e1 e2 : ℝ) : Gen.orthoComp_uB e0 e1 e2 = ((zero : ℝ), e2, -e1) := by
+  unfold Gen.orthoComp_uB zero; leaf_eq
+
+theorem eig1_m00_eq (a b c ev : ℝ) : Gen.eig1_m00 a b c ev = a - ev := by unfold Gen.eig1_m00; leaf_eq
+theorem eig1_m01_eq (a b c ev : ℝ) : Gen.eig1_m01 a b c ev = b := by unfold Gen.eig1_m01; leaf_eq
+theorem eig1_m11_eq (a b c ev : ℝ) : Gen.eig1_m11 a b c ev = c - ev := by unfold Gen.eig1_m11; leaf_eq
+
+theorem eig1_leaf0a_eq (m00 m01 m11 : ℝ) :
+    Gen.eig1_leaf0a sqrt m00 m01 m11 =
+      (m01 / m00 * ((one : ℝ) / sqrt ((one : ℝ) + m01 / m00 * (m01 / m00))), (one : ℝ) / sqrt ((one : ℝ) + m01 / m00 * (m01 / m00))) := by
+  unfold Gen.eig1_leaf0a one; leaf_eq
+
+theorem eig1_leaf0b_eq (m00 m01 m11 : ℝ) :
+    Gen.eig1_leaf0b sqrt m00 m01 m11 =
+      ((one : ℝ) / sqrt ((one : ℝ) + m00 / m01 * (m00 / m01)), m00 / m01 * ((one : ℝ) / sqrt ((one : ℝ) + m00 / m01 * (m00 / m01)))) := by
+  unfold Gen.eig1_leaf0b one; leaf_eq
+
+theorem eig1_leaf1a_eq (m00 m01 m11 : ℝ) :
+    Gen.eig1_leaf1a sqrt m00 m01 m11 =
+      ((one : ℝ) / sqrt ((one : ℝ) + m01 / m11 * (m01 / m11)), m01 / m11 * ((one : ℝ) / sqrt ((one : ℝ) + m01 / m11 * (m01 / m11)))) := by
+  unfold Gen.eig1_leaf1a one; leaf_eq
+
+theorem eig1_leaf1b_eq (m00 m01 m11 : ℝ) :
+    Gen.eig1_leaf1b sqrt m00 m01 m11 =
+      (m11 / m01 * ((one : ℝ) / sqrt ((one : ℝ) + m11 / m01 * (m11 / m01))), (one : ℝ) / sqrt ((one : ℝ) + m11 / m01 * (m11 / m01))) := by
+  unfold Gen.eig1_leaf1b one; leaf_eq
+
+end leaves
+
 section
-variable {K : Type} [Add K] [Sub K] [Mul K] [Div K] [Neg K] [NatCast K] [LT K] [LE K]
-  [DecidableLT K] [DecidableLE K]
+variable (sqrt : ℝ → ℝ)
 
-theorem eig0T_eq (sqrt : K → K) (A : M3 K) (ev : K) : eig0T sqrt A ev = eig0 sqrt A ev := by
+theorem eig0T_eq (A : M3 ℝ) (ev : ℝ) : eig0T sqrt A ev = eig0 sqrt A ev := by
+  unfold eig0T
+  simp only [eig0_row0_eq, eig0_row1_eq, eig0_row2_eq]
   rfl
 
-theorem orthoCompT_eq (sqrt : K → K) (e : V3 K) : orthoCompT sqrt e = orthoComp sqrt e := by
+theorem orthoCompT_eq (e : V3 ℝ) : orthoCompT sqrt e = orthoComp sqrt e := by
+  unfold orthoCompT
+  simp only [orthoComp_tempA_eq, orthoComp_uA_eq, orthoComp_tempB_eq, orthoComp_uB_eq]
   rfl
 
-theorem eig1CoeffsT_eq (sqrt : K → K) (m00 m01 m11 : K) : eig1CoeffsT sqrt m00 m01 m11 = eig1Coeffs sqrt m00 m01 m11 := by
+theorem eig1CoeffsT_eq (m00 m01 m11 : ℝ) : eig1CoeffsT sqrt m00 m01 m11 = eig1Coeffs sqrt m00 m01 m11 := by
+  unfold eig1CoeffsT
+  simp only [eig1_leaf0a_eq, eig1_leaf0b_eq, eig1_leaf1a_eq, eig1_leaf1b_eq]
   rfl
 
-theorem eig1T_eq (sqrt : K → K) (A : M3 K) (e0 : V3 K) (ev1 : K) : eig1T sqrt A e0 ev1 = eig1 sqrt A e0 ev1 := by
+theorem eig1T_eq (A : M3 ℝ) (e0 : V3 ℝ) (ev1 : ℝ) : eig1T sqrt A e0 ev1 = eig1 sqrt A e0 ev1 := by
+  unfold eig1T
+  simp only [eig1_m00_eq, eig1_m01_eq, eig1_m11_eq, orthoCompT_eq, eig1CoeffsT_eq]
   rfl
 
-theorem trigVectorsT_eq (sqrt : K → K) (S : M3 K) (l : K × K × K) (r : K) :
+theorem trigVectorsT_eq (S : M3 ℝ) (l : ℝ × ℝ × ℝ) (r : ℝ) :
     trigVectorsT sqrt S l r = trigVectors sqrt S l r := by
-  unfold trigVectorsT trigVectors
+  unfold trigVectorsT trigVectors assemble3
+  simp only [eig0T_eq, eig1T_eq]
   split <;> rfl
 
-theorem eigenValuesVectors3dT_eq (sqrt acos cos : K → K) (pi eps : K) (A : M3 K) :
+theorem eigenValuesVectors3dT_eq (acos cos : ℝ → ℝ) (pi eps : ℝ) (A : M3 ℝ) :
     eigenValuesVectors3dT sqrt acos cos pi eps A = eigenValuesVectors3d sqrt acos cos pi eps A := by
   unfold eigenValuesVectors3dT eigenValuesVectors3d
   simp only [trigVectorsT_eq]
